@@ -332,7 +332,12 @@ pub fn run(args: &Args, out: &mut Out) {
     // head-room so that `Instant::now() - age` never underflows the monotonic clock
     hcore::warp(Duration::from_secs(10_000_000));
     if let Some(cases) = args.replay_cases() {
-        for (i, (_, ops)) in cases.iter().enumerate() {
+        for (i, (header, ops)) in cases.iter().enumerate() {
+            let seq = ops.iter().any(|op| matches!(op[0].as_str(), "warp" | "conn" | "close" | "req" | "ifail" | "rsent" | "dialfail"));
+            if seq {
+                crate::c50_seq::replay_case(out, i as u64, header, ops, &peer_of, &parse_tok, &list_of);
+                continue;
+            }
             out.case(i as u64, "replay nt=1");
             for op in ops {
                 replay_op(out, op);
@@ -416,6 +421,13 @@ pub fn run(args: &Args, out: &mut Out) {
         do_filter(out, me, &obs, demanded);
         out.end();
         idx += 1;
+    }
+
+    // (4) op histories on a real Behaviour (life cycle of `ongoing_inbound`, throttling over time)
+    let n = args.n(1500, 60_000);
+    for i in 0..n {
+        let mut rng = Rng::for_case(args.seed ^ 0x5E0, i);
+        crate::c50_seq::gen_case(&mut rng, out, 1_000_000 + i, args.thorough);
     }
 
     // (3) resolve_inbound_request on generated server states
